@@ -50,7 +50,8 @@ def load_known(prop: str):
     if not os.path.exists(path):
         return []
     data = json.load(open(path))
-    return [k for k in data.get("findings", []) if prop in k.get("properties", [k.get("property")])]
+    # a listed finding is matched by obligation id + case signature, whatever property the obligation is reported under
+    return list(data.get("findings", []))
 
 
 def run_property(prop: str, tier: str, repo: str, seed: int, args) -> int:
